@@ -81,12 +81,11 @@ func (v *VMValue) ArrayFuncKeepBase(ctx *Context, pickNum IntType, orderType int
 		sort.Slice(nums, func(i, j int) bool { return nums[i] < nums[j] }) // 从小到大
 	}
 
+	if pickNum > IntType(len(nums)) {
+		pickNum = IntType(len(nums)) // 取的个数不会多于元素个数，也避免超大数字造成空转
+	}
 	num := float64(0)
 	for i := IntType(0); i < pickNum; i++ {
-		// 当取数大于上限 跳过
-		if i >= IntType(len(nums)) {
-			continue
-		}
 		num += nums[i]
 	}
 
